@@ -12,7 +12,7 @@ import random
 
 import torch
 
-from .. import probes, revgrid, zoo
+from .. import env, probes, revgrid, zoo
 
 ID = "C10"
 LEVEL = "exploration"
@@ -23,7 +23,8 @@ ASSUMPTIONS = ["decimal grids (class B): Brownian increments over intervals whos
                "grid times (unsnapped: 1e-6)"]
 REQUIRED_COUNTERS = ["class_A", "class_B", "multi_output_cases", "noise_diagonal", "noise_scalar", "noise_additive",
                      "noise_general", "loss_subset_not_last", "loss_subset_one_interior", "negative_times",
-                     "chunked_with_extra_state", "far_time_axis", "renamed_methods_cases", "extreme_time_axis"]
+                     "chunked_with_extra_state", "far_time_axis", "renamed_methods_cases", "extreme_time_axis",
+                     "time_switched_parameter_sets", "default_dtype_float32_cases"]
 THRESHOLDS = {"A": 1e-9, "B_snapped": 1e-9, "B_unsnapped": 1e-6, "C": 1e-9}
 
 
@@ -77,6 +78,14 @@ def run_case(case):
     gen = torch.Generator().manual_seed(case["rseed"])
     y0v = torch.randn(B, d, generator=gen)
     w = torch.randn(len(tsl), B, d, generator=gen)
+    # which parameters take part may depend on WHEN the SDE is evaluated (drift/diffusion switch networks half-way)
+    if rng.random() < 0.25:
+        other = zoo.NeuralSDE(d, m, nt, "stratonovich", seed=rng.randrange(10 ** 6), gscale=0.6)
+        sde = zoo.TimeSwitched(sde, other, t0 + (nsteps // 2) * dt + 0.5 * dt)
+        cnt["time_switched_parameter_sets"] = 1
+    # the process default dtype is float32 in a third of the cases (all data explicitly float64)
+    under_f32 = rng.random() < 0.33
+    cnt["default_dtype_float32_cases"] = int(under_f32)
     # losses on subsets of the output times (exact zeros elsewhere): dense / not on the final time / one interior time /
     # only the final time
     subset = rng.choice(["all", "all", "not_last", "one_interior", "last"]) if len(tsl) > 2 else "all"
@@ -94,7 +103,7 @@ def run_case(case):
     ctx = f"noise={nt} B={B} d={d} m={sde.m} dt={dt} ts={tsl} loss_on={subset}"
 
     def mk():
-        return torchsde.BrownianInterval(t0=tsl[0], t1=tsl[-1], size=(B, sde.m), entropy=entropy)
+        return torchsde.BrownianInterval(t0=tsl[0], t1=tsl[-1], size=(B, sde.m), entropy=entropy, dtype=torch.float64)
 
     # variant: checkpoint-restart use - the solve is split at an output time, the returned extra state is handed to the
     # second call, and the loss also reads the final extra state (so gradient has to flow through the returned state)
@@ -136,9 +145,10 @@ def run_case(case):
             loss.backward()
             return torch.cat([y0.grad.flatten()] + [(p.grad if p.grad is not None else torch.zeros_like(p)).flatten()
                                                     for p in sde.parameters()])
-        g_bp = grads_of(torchsde.sdeint, bm1)
-        with pr.installed():
-            g_adj = grads_of(torchsde.sdeint_adjoint, bm2, adjoint_method="adjoint_reversible_heun")
+        with env.default_dtype(torch.float32 if under_f32 else torch.float64):
+            g_bp = grads_of(torchsde.sdeint, bm1)
+            with pr.installed():
+                g_adj = grads_of(torchsde.sdeint_adjoint, bm2, adjoint_method="adjoint_reversible_heun")
         nfwd = 2 if chunked else 1  # forward solvers are created first (one per sdeint_adjoint call)
         fwd = [(s["t0"], s["t1"]) for s in pr.steps if s["solver"] < nfwd]
         bwd = sorted((-s["t1"], -s["t0"]) for s in pr.steps if s["solver"] >= nfwd)
